@@ -1,5 +1,5 @@
 (* Proofs at R about Model/Spatial.v (C24). *)
-From Coq Require Import ZArith List PrimFloat Reals Lra Lia Psatz Bool String Ascii.
+From Coq Require Import ZArith List PrimFloat Reals Lra Lia Psatz Nsatz Bool String Ascii.
 From MJV Require Import Lib.Num Lib.NumR Model.Spatial.
 Import ListNotations.
 Open Scope R_scope.
@@ -19,5 +19,818 @@ Lemma mat_ext (a0 a1 a2 a3 a4 a5 a6 a7 a8 b0 b1 b2 b3 b4 b5 b6 b7 b8 : R) :
   (a0, a1, a2, a3, a4, a5, a6, a7, a8) = (b0, b1, b2, b3, b4, b5, b6, b7, b8).
 Proof. intros; subst; reflexivity. Qed.
 
+Ltac nR := unfold ntwo in *; num_R.
+
+(* ---- constants *)
+Lemma ntwo_R : ntwo (T:=R) = 2. Proof. reflexivity. Qed.
+Lemma nhalf_R : nhalf (T:=R) = / 2.
+Proof. unfold nhalf; num_R; unfold Rdec; simpl. lra. Qed.
+Lemma nquarter_R : nquarter (T:=R) = / 4.
+Proof. unfold nquarter; num_R; unfold Rdec; simpl. lra. Qed.
+Lemma mjMINVAL_R : mjMINVAL (T:=R) = / 1000000000000000.
+Proof. unfold mjMINVAL; num_R; unfold Rdec. replace (10 ^ 15)%Z with 1000000000000000%Z by reflexivity. lra. Qed.
+Lemma mjMINVAL_pos : 0 < mjMINVAL (T:=R).
+Proof. rewrite mjMINVAL_R. lra. Qed.
+Lemma mjMINVAL_lt1 : mjMINVAL (T:=R) < 1.
+Proof. rewrite mjMINVAL_R. lra. Qed.
+
+(* ---- basic definitions used in the statements *)
+Definition qnorm2 (q : quat R) : R := let '(q0, q1, q2, q3) := q in q0 * q0 + q1 * q1 + q2 * q2 + q3 * q3.
+Definition unitq (q : quat R) : Prop := qnorm2 q = 1.
+Definition qopp (q : quat R) : quat R := let '(q0, q1, q2, q3) := q in (- q0, - q1, - q2, - q3).
+Definition unitv (v : vec3 R) : Prop := dot3 v v = 1.
+Definition unitp (p : pose R) : Prop := unitq (snd p).
+
+Lemma isNullQuat_true (q : quat R) : isNullQuat q = true <-> q = (1, 0, 0, 0).
+Proof.
+  dq q. unfold isNullQuat. num_R. rewrite !andb_true_iff, !Reqb_true. split.
+  - intros [[[-> ->] ->] ->]. reflexivity.
+  - intros E; inversion E; auto.
+Qed.
+Lemma isZero3_true (v : vec3 R) : isZero3 v = true <-> v = (0, 0, 0).
+Proof.
+  dv v. unfold isZero3. num_R. rewrite !andb_true_iff, !Reqb_true. split.
+  - intros [[-> ->] ->]. reflexivity.
+  - intros E; inversion E; auto.
+Qed.
+
+(* ---- group structure of mulQuat *)
 Lemma mulQuat_assoc (a b c : quat R) : mulQuat (mulQuat a b) c = mulQuat a (mulQuat b c).
-Proof. dq a; dq b; dq c. unfold mulQuat. num_R. apply quat_ext; ring. Qed.
+Proof. dq a; dq b; dq c. unfold mulQuat. nR. apply quat_ext; ring. Qed.
+Lemma mulQuat_id_l (a : quat R) : mulQuat quatId a = a.
+Proof. dq a. unfold mulQuat, quatId. nR. apply quat_ext; ring. Qed.
+Lemma mulQuat_id_r (a : quat R) : mulQuat a quatId = a.
+Proof. dq a. unfold mulQuat, quatId. nR. apply quat_ext; ring. Qed.
+Lemma mulQuat_neg_r (a : quat R) : mulQuat a (negQuat a) = (qnorm2 a, 0, 0, 0).
+Proof. dq a. unfold mulQuat, negQuat, qnorm2. nR. apply quat_ext; ring. Qed.
+Lemma mulQuat_neg_l (a : quat R) : mulQuat (negQuat a) a = (qnorm2 a, 0, 0, 0).
+Proof. dq a. unfold mulQuat, negQuat, qnorm2. nR. apply quat_ext; ring. Qed.
+Lemma negQuat_inverse (a : quat R) : unitq a -> mulQuat a (negQuat a) = quatId /\ mulQuat (negQuat a) a = quatId.
+Proof. intros U. rewrite mulQuat_neg_r, mulQuat_neg_l, U. split; reflexivity. Qed.
+Lemma qnorm2_mul (a b : quat R) : qnorm2 (mulQuat a b) = qnorm2 a * qnorm2 b.
+Proof. dq a; dq b. unfold mulQuat, qnorm2. nR. ring. Qed.
+Lemma unitq_mul (a b : quat R) : unitq a -> unitq b -> unitq (mulQuat a b).
+Proof. unfold unitq. intros. rewrite qnorm2_mul. nra. Qed.
+Lemma unitq_neg (a : quat R) : unitq a -> unitq (negQuat a).
+Proof. dq a. unfold unitq, negQuat, qnorm2. nR. intros; nra. Qed.
+Lemma negQuat_mul (a b : quat R) : negQuat (mulQuat a b) = mulQuat (negQuat b) (negQuat a).
+Proof. dq a; dq b. unfold mulQuat, negQuat. nR. apply quat_ext; ring. Qed.
+
+(* ---- quat2Mat: the identity arm agrees with the regular formula *)
+Definition quat2Mat_reg (q : quat R) : mat3 R :=
+  let '(q0, q1, q2, q3) := q in
+  (q0*q0 + q1*q1 - q2*q2 - q3*q3, 2 * (q1*q2 - q0*q3), 2 * (q1*q3 + q0*q2),
+   2 * (q1*q2 + q0*q3), q0*q0 - q1*q1 + q2*q2 - q3*q3, 2 * (q2*q3 - q0*q1),
+   2 * (q1*q3 - q0*q2), 2 * (q2*q3 + q0*q1), q0*q0 - q1*q1 - q2*q2 + q3*q3).
+Lemma quat2Mat_is_reg (q : quat R) : quat2Mat q = quat2Mat_reg q.
+Proof.
+  unfold quat2Mat. destruct (isNullQuat q) eqn:E.
+  - apply isNullQuat_true in E. subst q. unfold matId, quat2Mat_reg. nR. apply mat_ext; ring.
+  - dq q. unfold quat2Mat_reg. nR. reflexivity.
+Qed.
+Lemma quat2Mat_mul (a b : quat R) : quat2Mat (mulQuat a b) = mulMatMat3 (quat2Mat a) (quat2Mat b).
+Proof.
+  rewrite !quat2Mat_is_reg. dq a; dq b. unfold mulQuat, quat2Mat_reg, mulMatMat3. nR.
+  apply mat_ext; ring.
+Qed.
+
+(* ---- rotVecQuat *)
+Lemma rotVecQuat_is_reg (v : vec3 R) (q : quat R) : rotVecQuat v q = rotVecQuat_reg v q.
+Proof.
+  unfold rotVecQuat. destruct (isZero3 v) eqn:Z.
+  - apply isZero3_true in Z. subst v. dq q. unfold rotVecQuat_reg, zero3. nR. apply vec_ext; ring.
+  - destruct (isNullQuat q) eqn:E; [|reflexivity].
+    apply isNullQuat_true in E. subst q. dv v. unfold rotVecQuat_reg. nR. apply vec_ext; ring.
+Qed.
+Lemma rotVecQuat_i_is_reg (v : vec3 R) (q : quat R) : rotVecQuat_i v q = rotVecQuat_reg v q.
+Proof.
+  unfold rotVecQuat_i. destruct (isNullQuat q) eqn:E; [|reflexivity].
+  apply isNullQuat_true in E. subst q. dv v. unfold rotVecQuat_reg. nR. apply vec_ext; ring.
+Qed.
+Lemma rotVecQuat_reg_mat (v : vec3 R) (q : quat R) :
+  unitq q -> rotVecQuat_reg v q = mulMatVec3 (quat2Mat_reg q) v.
+Proof.
+  dq q; dv v. unfold unitq, qnorm2, rotVecQuat_reg, quat2Mat_reg, mulMatVec3. nR. intros U.
+  apply vec_ext.
+  - replace (q0*q0) with (1 - q1*q1 - q2*q2 - q3*q3) by lra. ring.
+  - replace (q0*q0) with (1 - q1*q1 - q2*q2 - q3*q3) by lra. ring.
+  - replace (q0*q0) with (1 - q1*q1 - q2*q2 - q3*q3) by lra. ring.
+Qed.
+Lemma rotVecQuat_mat (v : vec3 R) (q : quat R) : unitq q -> rotVecQuat v q = mulMatVec3 (quat2Mat q) v.
+Proof. intros. rewrite rotVecQuat_is_reg, quat2Mat_is_reg. apply rotVecQuat_reg_mat; auto. Qed.
+Lemma rotVecQuat_i_mat (v : vec3 R) (q : quat R) : unitq q -> rotVecQuat_i v q = mulMatVec3 (quat2Mat q) v.
+Proof. intros. rewrite rotVecQuat_i_is_reg, quat2Mat_is_reg. apply rotVecQuat_reg_mat; auto. Qed.
+Lemma rotVecQuat_i_eq (v : vec3 R) (q : quat R) : rotVecQuat_i v q = rotVecQuat v q.
+Proof. rewrite rotVecQuat_is_reg, rotVecQuat_i_is_reg. reflexivity. Qed.
+
+Lemma mat_dot (v : vec3 R) (q : quat R) :
+  dot3 (mulMatVec3 (quat2Mat_reg q) v) (mulMatVec3 (quat2Mat_reg q) v) = qnorm2 q * qnorm2 q * dot3 v v.
+Proof. dq q; dv v. unfold dot3, mulMatVec3, quat2Mat_reg, qnorm2. nR. ring. Qed.
+Lemma rotVecQuat_norm (v : vec3 R) (q : quat R) : unitq q -> norm3 (rotVecQuat v q) = norm3 v.
+Proof.
+  intros U. unfold norm3. nR. f_equal. rewrite rotVecQuat_is_reg, rotVecQuat_reg_mat by auto.
+  rewrite mat_dot, U. ring.
+Qed.
+Lemma rotVecQuat_i_norm (v : vec3 R) (q : quat R) : unitq q -> norm3 (rotVecQuat_i v q) = norm3 v.
+Proof. intros. rewrite rotVecQuat_i_eq. apply rotVecQuat_norm; auto. Qed.
+
+(* ---- quat2Mat q is a rotation matrix for unit q *)
+Lemma quat2Mat_orth_gen (q : quat R) :
+  mulMatMat3 (quat2Mat_reg q) (transpose3 (quat2Mat_reg q)) =
+    (qnorm2 q * qnorm2 q, 0, 0, 0, qnorm2 q * qnorm2 q, 0, 0, 0, qnorm2 q * qnorm2 q) /\
+  mulMatMat3 (transpose3 (quat2Mat_reg q)) (quat2Mat_reg q) =
+    (qnorm2 q * qnorm2 q, 0, 0, 0, qnorm2 q * qnorm2 q, 0, 0, 0, qnorm2 q * qnorm2 q) /\
+  det3 (quat2Mat_reg q) = qnorm2 q * qnorm2 q * qnorm2 q.
+Proof.
+  dq q. unfold mulMatMat3, transpose3, quat2Mat_reg, det3, qnorm2. nR.
+  split; [|split]; try (apply mat_ext; ring). ring.
+Qed.
+Lemma quat2Mat_rotation (q : quat R) : unitq q ->
+  mulMatMat3 (quat2Mat q) (transpose3 (quat2Mat q)) = matId /\
+  mulMatMat3 (transpose3 (quat2Mat q)) (quat2Mat q) = matId /\
+  det3 (quat2Mat q) = 1.
+Proof.
+  intros U. rewrite quat2Mat_is_reg. destruct (quat2Mat_orth_gen q) as (A & B & C).
+  rewrite A, B, C, U. unfold matId. nR. repeat split; try (apply mat_ext; ring). ring.
+Qed.
+
+(* ---- mat2Quat inverts quat2Mat up to sign (unit quaternions) *)
+
+Lemma half_sqrt_sq x : / 2 * sqrt (4 * (x * x)) = Rabs x.
+Proof.
+  replace (4*(x*x)) with (Rsqr (2*x)) by (unfold Rsqr; ring).
+  rewrite sqrt_Rsqr_abs, Rabs_mult, (Rabs_right 2) by lra. field.
+Qed.
+
+Lemma normalize4_unit (q : quat R) : unitq q -> normalize4 q = (q, 1).
+Proof.
+  dq q. unfold unitq, qnorm2, normalize4. nR. intros U. rewrite U, sqrt_1.
+  destruct (Rltb 1 mjMINVAL) eqn:E1.
+  { apply Rltb_true in E1. pose proof mjMINVAL_lt1. lra. }
+  destruct (Rltb mjMINVAL (Rabs (1 - 1))) eqn:E2.
+  { apply Rltb_true in E2. replace (1 - 1) with 0 in E2 by ring. rewrite Rabs_R0 in E2. pose proof mjMINVAL_pos. lra. }
+  reflexivity.
+Qed.
+
+Lemma mat2Quat_raw_roundtrip (q : quat R) : unitq q ->
+  fst (mat2Quat_raw (quat2Mat q)) = q \/ fst (mat2Quat_raw (quat2Mat q)) = qopp q.
+Proof.
+  intros U. rewrite quat2Mat_is_reg. dq q. unfold unitq, qnorm2 in U.
+  unfold quat2Mat_reg, mat2Quat_raw, qopp. rewrite nhalf_R, nquarter_R. nR.
+  match goal with |- context [if ?c then _ else _] => destruct c eqn:B0 end.
+  - apply Rltb_true in B0. cbn [fst].
+    replace (1 + (q0 * q0 + q1 * q1 - q2 * q2 - q3 * q3) + (q0 * q0 - q1 * q1 + q2 * q2 - q3 * q3) + (q0 * q0 - q1 * q1 - q2 * q2 + q3 * q3))
+      with (4 * (q0 * q0)) by (rewrite <- U; ring).
+    rewrite half_sqrt_sq.
+    assert (q0 <> 0) by (intros ->; nra).
+    destruct (Rcase_abs q0) as [N|N].
+    + right. rewrite (Rabs_left _ N). apply quat_ext; field; lra.
+    + left. rewrite (Rabs_right _ N). apply quat_ext; field; lra.
+  - apply Rltb_false in B0.
+    match goal with |- context [if ?c then _ else _] => destruct c eqn:B1 end.
+    + apply andb_true_iff in B1. destruct B1 as [B1 B1']. apply Rltb_true in B1, B1'. cbn [fst].
+      replace (1 + (q0 * q0 + q1 * q1 - q2 * q2 - q3 * q3) - (q0 * q0 - q1 * q1 + q2 * q2 - q3 * q3) - (q0 * q0 - q1 * q1 - q2 * q2 + q3 * q3))
+        with (4 * (q1 * q1)) by (rewrite <- U; ring).
+      rewrite half_sqrt_sq.
+      assert (q1 <> 0) by (intros ->; nra).
+      destruct (Rcase_abs q1) as [N|N].
+      * right. rewrite (Rabs_left _ N). apply quat_ext; field; lra.
+      * left. rewrite (Rabs_right _ N). apply quat_ext; field; lra.
+    + match goal with |- context [if ?c then _ else _] => destruct c eqn:B2 end.
+      * apply Rltb_true in B2. cbn [fst].
+        replace (1 - (q0 * q0 + q1 * q1 - q2 * q2 - q3 * q3) + (q0 * q0 - q1 * q1 + q2 * q2 - q3 * q3) - (q0 * q0 - q1 * q1 - q2 * q2 + q3 * q3))
+          with (4 * (q2 * q2)) by (rewrite <- U; ring).
+        rewrite half_sqrt_sq.
+        assert (q2 <> 0) by (intros ->; pose proof (Rle_0_sqr q3) as S; unfold Rsqr in S; lra).
+        destruct (Rcase_abs q2) as [N|N].
+        -- right. rewrite (Rabs_left _ N). apply quat_ext; field; lra.
+        -- left. rewrite (Rabs_right _ N). apply quat_ext; field; lra.
+      * apply Rltb_false in B2. cbn [fst].
+        replace (1 - (q0 * q0 + q1 * q1 - q2 * q2 - q3 * q3) - (q0 * q0 - q1 * q1 + q2 * q2 - q3 * q3) + (q0 * q0 - q1 * q1 - q2 * q2 + q3 * q3))
+          with (4 * (q3 * q3)) by (rewrite <- U; ring).
+        rewrite half_sqrt_sq.
+        assert (q3 <> 0).
+        { intros ->. apply andb_false_iff in B1. pose proof (Rle_0_sqr q0) as S0; pose proof (Rle_0_sqr q1) as S1; pose proof (Rle_0_sqr q2) as S2; unfold Rsqr in *;
+          destruct B1 as [B1|B1]; apply Rltb_false in B1; lra. }
+        destruct (Rcase_abs q3) as [N|N].
+        -- right. rewrite (Rabs_left _ N). apply quat_ext; field; lra.
+        -- left. rewrite (Rabs_right _ N). apply quat_ext; field; lra.
+Qed.
+
+Lemma unitq_qopp (q : quat R) : unitq q -> unitq (qopp q).
+Proof. dq q. unfold unitq, qopp, qnorm2. intros; nra. Qed.
+Lemma mat2Quat_roundtrip (q : quat R) : unitq q ->
+  mat2Quat (quat2Mat q) = q \/ mat2Quat (quat2Mat q) = qopp q.
+Proof.
+  intros U. unfold mat2Quat. destruct (mat2Quat_raw_roundtrip q U) as [E|E]; rewrite E.
+  - left. rewrite normalize4_unit; auto.
+  - right. rewrite normalize4_unit; auto using unitq_qopp.
+Qed.
+
+(* ---- rotation is an action of unit quaternions *)
+Lemma mulMatVec3_mul (A B : mat3 R) (v : vec3 R) :
+  mulMatVec3 (mulMatMat3 A B) v = mulMatVec3 A (mulMatVec3 B v).
+Proof.
+  destruct A as [[[[[[[[a0 a1] a2] a3] a4] a5] a6] a7] a8]. destruct B as [[[[[[[[b0 b1] b2] b3] b4] b5] b6] b7] b8].
+  dv v. unfold mulMatVec3, mulMatMat3. nR. apply vec_ext; ring.
+Qed.
+Lemma rot_mul (v : vec3 R) (a b : quat R) : unitq a -> unitq b ->
+  rotVecQuat_i v (mulQuat a b) = rotVecQuat_i (rotVecQuat_i v b) a.
+Proof.
+  intros Ua Ub. rewrite !rotVecQuat_i_mat by auto using unitq_mul.
+  rewrite quat2Mat_mul. apply mulMatVec3_mul.
+Qed.
+Lemma rot_id (v : vec3 R) : rotVecQuat_i v quatId = v.
+Proof. unfold rotVecQuat_i. replace (isNullQuat quatId) with true; auto. symmetry. apply isNullQuat_true. reflexivity. Qed.
+Lemma rot_add (u w : vec3 R) (q : quat R) :
+  rotVecQuat_i (add3 u w) q = add3 (rotVecQuat_i u q) (rotVecQuat_i w q).
+Proof. rewrite !rotVecQuat_i_is_reg. dv u; dv w; dq q. unfold rotVecQuat_reg, add3. nR. apply vec_ext; ring. Qed.
+Lemma rot_scl (v : vec3 R) (s : R) (q : quat R) :
+  rotVecQuat_i (scl3 v s) q = scl3 (rotVecQuat_i v q) s.
+Proof. rewrite !rotVecQuat_i_is_reg. dv v; dq q. unfold rotVecQuat_reg, scl3. nR. apply vec_ext; ring. Qed.
+Lemma rot_neg_l (v : vec3 R) (q : quat R) : unitq q -> rotVecQuat_i (rotVecQuat_i v q) (negQuat q) = v.
+Proof.
+  intros U. rewrite <- rot_mul by auto using unitq_neg.
+  destruct (negQuat_inverse q U) as [_ E]. rewrite E. apply rot_id.
+Qed.
+Lemma rot_neg_r (v : vec3 R) (q : quat R) : unitq q -> rotVecQuat_i (rotVecQuat_i v (negQuat q)) q = v.
+Proof.
+  intros U. rewrite <- rot_mul by auto using unitq_neg.
+  destruct (negQuat_inverse q U) as [E _]. rewrite E. apply rot_id.
+Qed.
+Lemma add3_assoc (a b c : vec3 R) : add3 (add3 a b) c = add3 a (add3 b c).
+Proof. dv a; dv b; dv c. unfold add3. nR. apply vec_ext; ring. Qed.
+Lemma unitq_id : unitq quatId.
+Proof. unfold unitq, quatId, qnorm2. nR. ring. Qed.
+
+(* ---- poses *)
+Lemma mulPose_unit (p1 p2 : pose R) : unitp p1 -> unitp p2 ->
+  mulPose p1 p2 = (add3 (rotVecQuat_i (fst p2) (snd p1)) (fst p1), mulQuat (snd p1) (snd p2)).
+Proof.
+  destruct p1 as [x1 q1], p2 as [x2 q2]. unfold unitp. cbn [fst snd]. intros U1 U2.
+  unfold mulPose. rewrite normalize4_unit by auto using unitq_mul. reflexivity.
+Qed.
+Lemma mulPose_unitp (p1 p2 : pose R) : unitp p1 -> unitp p2 -> unitp (mulPose p1 p2).
+Proof. intros U1 U2. rewrite mulPose_unit by auto. unfold unitp in *. cbn [snd]. auto using unitq_mul. Qed.
+Lemma mulPose_assoc (p1 p2 p3 : pose R) : unitp p1 -> unitp p2 -> unitp p3 ->
+  mulPose (mulPose p1 p2) p3 = mulPose p1 (mulPose p2 p3).
+Proof.
+  intros U1 U2 U3.
+  rewrite (mulPose_unit (mulPose p1 p2) p3) by auto using mulPose_unitp.
+  rewrite (mulPose_unit p1 (mulPose p2 p3)) by auto using mulPose_unitp.
+  rewrite (mulPose_unit p1 p2), (mulPose_unit p2 p3) by auto.
+  destruct p1 as [x1 q1], p2 as [x2 q2], p3 as [x3 q3]. unfold unitp in *. cbn [fst snd] in *.
+  f_equal.
+  - rewrite rot_mul, rot_add, add3_assoc by auto. reflexivity.
+  - apply mulQuat_assoc.
+Qed.
+Lemma poseId_unitp : unitp (poseId (T:=R)).
+Proof. unfold unitp, poseId. cbn [snd]. apply unitq_id. Qed.
+Lemma mulPose_id (p : pose R) : unitp p -> mulPose poseId p = p /\ mulPose p poseId = p.
+Proof.
+  intros U. rewrite !mulPose_unit by auto using poseId_unitp.
+  destruct p as [x q]. unfold poseId. cbn [fst snd]. rewrite rot_id, mulQuat_id_l, mulQuat_id_r.
+  split; f_equal.
+  - dv x. unfold add3, zero3. nR. apply vec_ext; ring.
+  - rewrite rotVecQuat_i_is_reg. dv x; dq q. unfold rotVecQuat_reg, add3, zero3. nR. apply vec_ext; ring.
+Qed.
+Lemma negPose_unitp (p : pose R) : unitp p -> unitp (negPose p).
+Proof. destruct p as [x q]. unfold unitp, negPose. cbn [snd]. apply unitq_neg. Qed.
+Lemma negPose_inverse (p : pose R) : unitp p ->
+  mulPose p (negPose p) = poseId /\ mulPose (negPose p) p = poseId.
+Proof.
+  intros U. rewrite !mulPose_unit by auto using negPose_unitp.
+  destruct p as [x q]. unfold unitp in U. cbn [snd] in U. unfold negPose, poseId. cbn [fst snd].
+  destruct (negQuat_inverse q U) as [E1 E2]. rewrite E1, E2. split; f_equal.
+  - rewrite rot_scl, rot_neg_r by auto. dv x. unfold add3, scl3, zero3. nR. apply vec_ext; ring.
+  - set (y := rotVecQuat_i x (negQuat q)). dv y. unfold add3, scl3, zero3. nR. apply vec_ext; ring.
+Qed.
+Lemma trnVecPose_action (p1 p2 : pose R) (v : vec3 R) : unitp p1 -> unitp p2 ->
+  trnVecPose (mulPose p1 p2) v = trnVecPose p1 (trnVecPose p2 v).
+Proof.
+  intros U1 U2. rewrite mulPose_unit by auto.
+  destruct p1 as [x1 q1], p2 as [x2 q2]. unfold unitp in *. cbn [fst snd] in *. unfold trnVecPose.
+  rewrite rot_mul, rot_add, add3_assoc by auto. reflexivity.
+Qed.
+Lemma trnVecPose_id (v : vec3 R) : trnVecPose poseId v = v.
+Proof. unfold trnVecPose, poseId. rewrite rot_id. dv v. unfold add3, zero3. nR. apply vec_ext; ring. Qed.
+Lemma trnVecPose_neg (p : pose R) (v : vec3 R) : unitp p -> trnVecPose (negPose p) (trnVecPose p v) = v.
+Proof.
+  intros U. rewrite <- trnVecPose_action by auto using negPose_unitp.
+  destruct (negPose_inverse p U) as [_ E]. rewrite E. apply trnVecPose_id.
+Qed.
+
+
+(* ---- axis-angle *)
+Lemma sin2cos2 x : sin x * sin x + cos x * cos x = 1.
+Proof. pose proof (sin2_cos2 x) as E. unfold Rsqr in E. exact E. Qed.
+
+Definition axisAngle_reg (ax : vec3 R) (angle : R) : quat R :=
+  let '(x0, x1, x2) := ax in
+  (cos (angle * / 2), x0 * sin (angle * / 2), x1 * sin (angle * / 2), x2 * sin (angle * / 2)).
+Lemma axisAngle2Quat_reg_eq (ax : vec3 R) (angle : R) :
+  axisAngle2Quat ax angle = axisAngle_reg ax angle \/
+  (angle = 0 /\ axisAngle2Quat ax angle = quatId).
+Proof.
+  unfold axisAngle2Quat. nR. destruct (Reqb angle 0) eqn:E.
+  - right. apply Reqb_true in E. auto.
+  - left. dv ax. rewrite nhalf_R. reflexivity.
+Qed.
+
+Lemma axisAngle2Quat_unit (ax : vec3 R) (angle : R) : unitv ax -> unitq (axisAngle2Quat ax angle).
+Proof.
+  intros U. destruct (axisAngle2Quat_reg_eq ax angle) as [E|[_ E]]; rewrite E.
+  - dv ax. unfold unitv, dot3 in U. nR. unfold unitq, qnorm2, axisAngle_reg.
+    pose proof (sin2cos2 (angle * / 2)). nra.
+  - apply unitq_id.
+Qed.
+
+(* Rodrigues' formula  I + sin(t) K + (1 - cos(t)) K^2,  K the cross-product matrix of the axis *)
+Definition skew (a : vec3 R) : mat3 R := let '(x0, x1, x2) := a in (0, - x2, x1, x2, 0, - x0, - x1, x0, 0).
+Definition madd (a b : mat3 R) : mat3 R :=
+  let '(a0, a1, a2, a3, a4, a5, a6, a7, a8) := a in let '(b0, b1, b2, b3, b4, b5, b6, b7, b8) := b in
+  (a0 + b0, a1 + b1, a2 + b2, a3 + b3, a4 + b4, a5 + b5, a6 + b6, a7 + b7, a8 + b8).
+Definition mscl (a : mat3 R) (s : R) : mat3 R :=
+  let '(a0, a1, a2, a3, a4, a5, a6, a7, a8) := a in
+  (a0 * s, a1 * s, a2 * s, a3 * s, a4 * s, a5 * s, a6 * s, a7 * s, a8 * s).
+Definition rodrigues (ax : vec3 R) (t : R) : mat3 R :=
+  madd matId (madd (mscl (skew ax) (sin t)) (mscl (mulMatMat3 (skew ax) (skew ax)) (1 - cos t))).
+
+Lemma axisAngle2Quat_rodrigues (ax : vec3 R) (angle : R) : unitv ax ->
+  quat2Mat (axisAngle2Quat ax angle) = rodrigues ax angle.
+Proof.
+  intros U. rewrite quat2Mat_is_reg.
+  destruct (axisAngle2Quat_reg_eq ax angle) as [E|[Z E]]; rewrite E.
+  - dv ax. unfold unitv, dot3 in U. nR.
+    unfold rodrigues, quat2Mat_reg, madd, mscl, skew, mulMatMat3, matId, axisAngle_reg. nR.
+    replace (sin angle) with (2 * sin (angle * / 2) * cos (angle * / 2)) by (rewrite <- sin_2a; f_equal; field).
+    replace (cos angle) with (1 - 2 * sin (angle * / 2) * sin (angle * / 2)) by (rewrite <- cos_2a_sin; f_equal; field).
+    set (s := sin (angle * / 2)). set (c := cos (angle * / 2)).
+    assert (CS : c * c = 1 - s * s) by (pose proof (sin2cos2 (angle * / 2)); unfold s, c; lra).
+    assert (X : ax0 * ax0 = 1 - ax1 * ax1 - ax2 * ax2) by lra.
+    apply mat_ext.
+    all: first [ring | clear E U; nsatz].
+  - subst angle. dv ax. unfold rodrigues, quat2Mat_reg, madd, mscl, skew, mulMatMat3, matId, quatId. nR.
+    rewrite sin_0, cos_0. apply mat_ext; ring.
+Qed.
+
+
+(* ---- Euler sequences *)
+Definition validEuler (c : ascii) : Prop :=
+  c = "x"%char \/ c = "y"%char \/ c = "z"%char \/ c = "X"%char \/ c = "Y"%char \/ c = "Z"%char.
+Definition axisOf (c : ascii) : vec3 R :=
+  if (Ascii.eqb c "x") || (Ascii.eqb c "X") then (1, 0, 0)
+  else if (Ascii.eqb c "y") || (Ascii.eqb c "Y") then (0, 1, 0) else (0, 0, 1).
+(* the rotation about the coordinate axis named by c *)
+Definition rotOf (c : ascii) (e : R) : quat R := axisAngle2Quat (axisOf c) e.
+Definition qprod (l : list (quat R)) : quat R := fold_right mulQuat quatId l.
+(* the factors contributed by the lower-case (intrinsic, lower = true) resp. upper-case characters, in order *)
+Fixpoint factors (lower : bool) (seq : list ascii) (es : list R) : list (quat R) :=
+  match seq, es with
+  | c :: seq', e :: es' =>
+      if Bool.eqb (isLower c) lower then rotOf c e :: factors lower seq' es' else factors lower seq' es'
+  | _, _ => []
+  end.
+
+Lemma axisOf_unit c : unitv (axisOf c).
+Proof. unfold axisOf. destruct (_ || _); [|destruct (_ || _)]; unfold unitv, dot3; nR; ring. Qed.
+
+Lemma eulerRot_valid c e : validEuler c -> eulerRot c e = Some (rotOf c e).
+Proof.
+  intros V. unfold rotOf.
+  assert (A : forall ax, axisAngle2Quat ax e = axisAngle_reg ax e \/ (e = 0 /\ axisAngle2Quat ax e = quatId))
+    by (intros; apply axisAngle2Quat_reg_eq).
+  assert (H2 : e / 2 = e * / 2) by reflexivity.
+  destruct V as [ -> | [ -> | [ -> | [ -> | [ -> | -> ] ] ] ] ]; unfold eulerRot, axisOf; cbn [Ascii.eqb Bool.eqb orb andb]; nR; rewrite H2; apply f_equal;
+    match goal with |- _ = axisAngle2Quat ?ax e => destruct (A ax) as [E|[Z E]]; rewrite E end;
+    try (unfold axisAngle_reg; apply quat_ext; ring);
+    subst e; replace (0 * / 2) with 0 by field; rewrite sin_0, cos_0; reflexivity.
+Qed.
+Lemma eulerRot_invalid c e : ~ validEuler c -> eulerRot c e = None (A:=quat R).
+Proof.
+  intros V. unfold eulerRot.
+  destruct (Ascii.eqb c "x") eqn:E1; [apply Ascii.eqb_eq in E1; exfalso; apply V; unfold validEuler; auto|].
+  destruct (Ascii.eqb c "X") eqn:E2; [apply Ascii.eqb_eq in E2; exfalso; apply V; unfold validEuler; auto 10|].
+  destruct (Ascii.eqb c "y") eqn:E3; [apply Ascii.eqb_eq in E3; exfalso; apply V; unfold validEuler; auto 10|].
+  destruct (Ascii.eqb c "Y") eqn:E4; [apply Ascii.eqb_eq in E4; exfalso; apply V; unfold validEuler; auto 10|].
+  destruct (Ascii.eqb c "z") eqn:E5; [apply Ascii.eqb_eq in E5; exfalso; apply V; unfold validEuler; auto 10|].
+  destruct (Ascii.eqb c "Z") eqn:E6; [apply Ascii.eqb_eq in E6; exfalso; apply V; unfold validEuler; auto 10|].
+  reflexivity.
+Qed.
+
+Lemma qprod_app l1 l2 : qprod (l1 ++ l2) = mulQuat (qprod l1) (qprod l2).
+Proof.
+  induction l1; cbn [qprod fold_right app].
+  - fold (qprod l2). rewrite mulQuat_id_l. reflexivity.
+  - fold (qprod (l1 ++ l2)) (qprod l1). rewrite IHl1, mulQuat_assoc. reflexivity.
+Qed.
+
+Lemma eulerLoop_product seq : forall es tmp, Forall validEuler seq ->
+  eulerLoop tmp seq es =
+    Some (mulQuat (qprod (rev (factors false seq es))) (mulQuat tmp (qprod (factors true seq es)))).
+Proof.
+  induction seq as [|c seq IH]; intros es tmp V.
+  - cbn [eulerLoop factors rev qprod fold_right]. rewrite mulQuat_id_l, mulQuat_id_r. reflexivity.
+  - destruct es as [|e es].
+    { cbn [eulerLoop factors rev qprod fold_right]. rewrite mulQuat_id_l, mulQuat_id_r. reflexivity. }
+    inversion V as [|? ? Vc Vs]; subst.
+    cbn [eulerLoop factors]. unfold eulerStep. rewrite (eulerRot_valid c e Vc).
+    rewrite IH by assumption.
+    destruct (isLower c); cbn [Bool.eqb]; f_equal.
+    + cbn [qprod fold_right]. fold (qprod (factors true seq es)). rewrite !mulQuat_assoc. reflexivity.
+    + cbn [rev]. rewrite qprod_app. cbn [qprod fold_right]. rewrite mulQuat_id_r.
+      fold (qprod (rev (factors false seq es))). rewrite !mulQuat_assoc. reflexivity.
+Qed.
+
+Lemma classic_valid c : validEuler c \/ ~ validEuler c.
+Proof.
+  unfold validEuler.
+  destruct (ascii_dec c "x"); [auto|]. destruct (ascii_dec c "y"); [auto|]. destruct (ascii_dec c "z"); [auto|].
+  destruct (ascii_dec c "X"); [auto 10|]. destruct (ascii_dec c "Y"); [auto 10|]. destruct (ascii_dec c "Z"); [auto 10|].
+  right. intros [|[|[|[|[|]]]]]; contradiction.
+Qed.
+
+Lemma eulerLoop_error seq : forall (es : list R) (tmp : quat R),
+  eulerLoop tmp seq es = None <-> ~ Forall validEuler (firstn (List.length es) seq).
+Proof.
+  induction seq as [|c seq IH]; intros es tmp.
+  - cbn. rewrite firstn_nil. split; [discriminate|]. intros N; exfalso; apply N; constructor.
+  - destruct es as [|e es].
+    { cbn. split; [discriminate|]. intros N; exfalso; apply N; constructor. }
+    cbn [eulerLoop List.length firstn]. unfold eulerStep.
+    destruct (classic_valid c) as [Vc|Vc].
+    + rewrite (eulerRot_valid c e Vc). rewrite IH. split.
+      * intros N F. inversion F; subst. auto.
+      * intros N F. apply N. constructor; auto.
+    + rewrite (eulerRot_invalid c e Vc). split; auto. intros _ F. inversion F; subst. auto.
+Qed.
+
+Lemma length_list_ascii_of_string s : List.length (list_ascii_of_string s) = String.length s.
+Proof. induction s; cbn; auto. Qed.
+
+Lemma euler2Quat_product (euler : vec3 R) (seq : string) :
+  String.length seq = 3%nat -> Forall validEuler (list_ascii_of_string seq) ->
+  euler2Quat euler seq =
+    Some (mulQuat (qprod (rev (factors false (list_ascii_of_string seq) (v2l euler))))
+                  (qprod (factors true (list_ascii_of_string seq) (v2l euler)))).
+Proof.
+  intros L V. unfold euler2Quat. rewrite L. cbn [Nat.eqb].
+  rewrite eulerLoop_product by assumption. rewrite mulQuat_id_l. reflexivity.
+Qed.
+Lemma euler2Quat_error (euler : vec3 R) (seq : string) :
+  euler2Quat euler seq = None <->
+  (String.length seq <> 3%nat \/ ~ Forall validEuler (list_ascii_of_string seq)).
+Proof.
+  unfold euler2Quat. destruct (Nat.eqb (String.length seq) 3) eqn:E.
+  - apply Nat.eqb_eq in E. rewrite eulerLoop_error.
+    replace (List.length (v2l euler)) with (List.length (list_ascii_of_string seq))
+      by (rewrite length_list_ascii_of_string, E; dv euler; reflexivity).
+    rewrite firstn_all. split; [auto|]. intros [N|N]; [contradiction|assumption].
+  - apply Nat.eqb_neq in E. split; auto.
+Qed.
+
+(* ---- MJX rotate *)
+Lemma mjx_rotate_eq (v : vec3 R) (q : quat R) : unitq q -> mjx_rotate v q = rotVecQuat v q.
+Proof.
+  rewrite rotVecQuat_is_reg. dq q; dv v. unfold unitq, qnorm2, mjx_rotate, rotVecQuat_reg, add3, scl3, dot3, cross. nR.
+  intros U. apply vec_ext.
+  - replace (q0*q0) with (1 - q1*q1 - q2*q2 - q3*q3) by lra. ring.
+  - replace (q0*q0) with (1 - q1*q1 - q2*q2 - q3*q3) by lra. ring.
+  - replace (q0*q0) with (1 - q1*q1 - q2*q2 - q3*q3) by lra. ring.
+Qed.
+
+(* ---- subQuat inverts quatIntegrate *)
+Lemma Ratan2_half phi : 0 <= phi <= PI / 2 -> Ratan2 (sin phi) (cos phi) = phi.
+Proof.
+  intros [L U]. unfold Ratan2.
+  destruct (Req_dec phi (PI / 2)) as [E|NE].
+  - subst phi. rewrite cos_PI2, sin_PI2.
+    destruct (Rlt_dec 0 0); [lra|]. destruct (Rlt_dec 0 1); [reflexivity|lra].
+  - assert (C : 0 < cos phi) by (apply cos_gt_0; lra).
+    destruct (Rlt_dec 0 (cos phi)); [|contradiction].
+    change (sin phi / cos phi) with (tan phi). apply atan_tan. lra.
+Qed.
+
+Lemma normalize3_snd (v : vec3 R) : snd (normalize3 v) = norm3 v.
+Proof. dv v. unfold normalize3, norm3, dot3. nR. destruct (Rltb _ _); reflexivity. Qed.
+Lemma normalize3_small (v : vec3 R) : norm3 v < mjMINVAL -> fst (normalize3 v) = (1, 0, 0).
+Proof.
+  dv v. unfold normalize3, norm3, dot3. nR. intros L. apply Rltb_true in L. rewrite L. reflexivity.
+Qed.
+Lemma normalize3_big (v : vec3 R) : mjMINVAL <= norm3 v -> fst (normalize3 v) = scl3 v (1 / norm3 v).
+Proof.
+  dv v. unfold normalize3, norm3, dot3, scl3. nR. intros L. apply Rltb_false in L. rewrite L. reflexivity.
+Qed.
+Lemma quatIntegrate_eq (q : quat R) (v : vec3 R) (h : R) :
+  quatIntegrate q v h = mulQuat (fst (normalize4 q)) (axisAngle2Quat (fst (normalize3 v)) (h * norm3 v)).
+Proof. unfold quatIntegrate. rewrite <- normalize3_snd. destruct (normalize3 v). reflexivity. Qed.
+
+Lemma norm3_zero (v : vec3 R) : norm3 v = 0 -> v = (0, 0, 0).
+Proof.
+  dv v. unfold norm3, dot3. nR. intros E. apply sqrt_eq_0 in E; [|nra].
+  assert (v0 = 0) by nra. assert (v1 = 0) by nra. assert (v2 = 0) by nra. subst. reflexivity.
+Qed.
+
+Lemma quat2Vel_id : quat2Vel (quatId (T:=R)) 1 = (0, 0, 0).
+Proof.
+  unfold quat2Vel, quatId, normalize3. nR.
+  replace (0 * 0 + 0 * 0 + 0 * 0) with 0 by ring. rewrite sqrt_0.
+  pose proof mjMINVAL_pos as P. apply Rltb_true in P. rewrite P.
+  unfold Ratan2. destruct (Rlt_dec 0 1); [|lra]. replace (0 / 1) with 0 by field. rewrite atan_0.
+  replace (2 * 0) with 0 by ring.
+  assert (F : Rltb PI 0 = false) by (apply Rltb_false; pose proof PI_RGT_0; lra). rewrite F.
+  unfold scl3. nR. apply vec_ext; field.
+Qed.
+
+Lemma quat2Vel_axisAngle (a : vec3 R) (t : R) :
+  unitv a -> Rabs t <= PI -> mjMINVAL <= Rabs (sin (t * / 2)) ->
+  quat2Vel (axisAngle_reg a t) 1 = scl3 a t.
+Proof.
+  intros U T S. dv a. unfold unitv, dot3 in U. nR.
+  unfold axisAngle_reg, quat2Vel.
+  set (s := sin (t * / 2)) in *. set (c := cos (t * / 2)).
+  pose proof mjMINVAL_pos as MP.
+  assert (TB : - PI <= t <= PI) by (unfold Rabs in T; destruct (Rcase_abs t); lra).
+  assert (S0 : s <> 0) by (intros Z; rewrite Z, Rabs_R0 in S; lra).
+  assert (N : normalize3 (a0 * s, a1 * s, a2 * s) =
+              ((a0 * s * (1 / Rabs s), a1 * s * (1 / Rabs s), a2 * s * (1 / Rabs s)), Rabs s)).
+  { unfold normalize3. nR.
+    replace (a0 * s * (a0 * s) + a1 * s * (a1 * s) + a2 * s * (a2 * s)) with (Rsqr s)
+      by (unfold Rsqr; replace (s * s) with (s * s * (a0 * a0 + a1 * a1 + a2 * a2)) by (rewrite U; ring); ring).
+    rewrite sqrt_Rsqr_abs. apply Rltb_false in S. rewrite S. reflexivity. }
+  rewrite N. nR.
+  assert (A : 2 * Ratan2 (Rabs s) c = Rabs t).
+  { destruct (Rle_dec 0 t) as [P|P].
+    - rewrite (Rabs_right t) by lra.
+      assert (0 <= s) by (apply sin_ge_0; lra).
+      rewrite (Rabs_right s) by lra. unfold s, c. rewrite Ratan2_half by lra. field.
+    - rewrite (Rabs_left t) by lra.
+      assert (E1 : s = - sin (- t * / 2)) by (unfold s; rewrite <- sin_neg; f_equal; field).
+      assert (E2 : c = cos (- t * / 2)) by (unfold c; rewrite <- cos_neg; f_equal; field).
+      assert (0 <= sin (- t * / 2)) by (apply sin_ge_0; lra).
+      rewrite (Rabs_left1 s) by lra. rewrite E1, Ropp_involutive, E2, Ratan2_half by lra. field. }
+  rewrite A.
+  assert (F : Rltb PI (Rabs t) = false) by (apply Rltb_false; lra). rewrite F.
+  unfold scl3. nR.
+  destruct (Rle_dec 0 t) as [P|P].
+  - assert (0 <= s) by (apply sin_ge_0; lra).
+    rewrite (Rabs_right t), (Rabs_right s) by lra. apply vec_ext; field; lra.
+  - assert (E1 : s = - sin (- t * / 2)) by (unfold s; rewrite <- sin_neg; f_equal; field).
+    assert (0 <= sin (- t * / 2)) by (apply sin_ge_0; lra).
+    rewrite (Rabs_left t), (Rabs_left1 s) by lra. apply vec_ext; field; lra.
+Qed.
+
+Lemma scl3_unit (v : vec3 R) : 0 < norm3 v -> unitv (scl3 v (1 / norm3 v)).
+Proof.
+  dv v. unfold norm3, unitv, scl3, dot3. nR. intros P.
+  set (d := v0 * v0 + v1 * v1 + v2 * v2) in *.
+  assert (D : 0 < d).
+  { destruct (Rlt_le_dec 0 d) as [L|L]; [assumption|]. rewrite (sqrt_neg_0 _ L) in P. lra. }
+  assert (RR : sqrt d * sqrt d = d) by (apply sqrt_sqrt; lra).
+  set (r := sqrt d) in *. clearbody r.
+  transitivity (d / (r * r)); [unfold d; field; lra | rewrite RR; field; lra].
+Qed.
+
+Lemma sub_integrate (q : quat R) (v : vec3 R) (h : R) :
+  unitq q -> Rabs (h * norm3 v) <= PI ->
+  (h * norm3 v = 0 \/ (mjMINVAL <= norm3 v /\ mjMINVAL <= Rabs (sin (h * norm3 v * / 2)))) ->
+  subQuat (quatIntegrate q v h) q = scl3 v h.
+Proof.
+  intros U T C. rewrite quatIntegrate_eq, normalize4_unit by assumption. cbn [fst].
+  unfold subQuat. rewrite <- mulQuat_assoc. destruct (negQuat_inverse q U) as [_ E]. rewrite E, mulQuat_id_l.
+  pose proof mjMINVAL_pos as MP.
+  destruct C as [Z|[N S]].
+  - rewrite Z. replace (axisAngle2Quat (fst (normalize3 v)) 0) with (quatId (T:=R)).
+    2:{ unfold axisAngle2Quat. nR. replace (Reqb 0 0) with true by (symmetry; apply Reqb_true; reflexivity). reflexivity. }
+    change (none (T:=R)) with 1. rewrite quat2Vel_id.
+    apply Rmult_integral in Z. destruct Z as [Z|Z].
+    + subst h. dv v. unfold scl3. nR. apply vec_ext; ring.
+    + apply norm3_zero in Z. subst v. unfold scl3. nR. apply vec_ext; ring.
+  - assert (TN : h * norm3 v <> 0).
+    { intros Z. rewrite Z in S. replace (0 * / 2) with 0 in S by field. rewrite sin_0, Rabs_R0 in S. lra. }
+    destruct (axisAngle2Quat_reg_eq (fst (normalize3 v)) (h * norm3 v)) as [A|[Z _]]; [|contradiction].
+    rewrite A, normalize3_big by assumption. change (none (T:=R)) with 1.
+    rewrite quat2Vel_axisAngle; auto.
+    + dv v. unfold scl3. nR. apply vec_ext; field; lra.
+    + apply scl3_unit. lra.
+Qed.
+
+(* ---- non-unit quaternions: what rotVecQuat and quat2Mat compute *)
+Lemma rotVecQuat_nonunit (v : vec3 R) (q : quat R) :
+  rotVecQuat v q = add3 (mulMatVec3 (quat2Mat q) v) (scl3 v (1 - qnorm2 q)).
+Proof.
+  rewrite rotVecQuat_is_reg, quat2Mat_is_reg. dq q; dv v.
+  unfold rotVecQuat_reg, quat2Mat_reg, mulMatVec3, add3, scl3, qnorm2. nR. apply vec_ext; ring.
+Qed.
+Lemma quat2Mat_scaled (q : quat R) :
+  mulMatMat3 (quat2Mat q) (transpose3 (quat2Mat q)) =
+    (qnorm2 q * qnorm2 q, 0, 0, 0, qnorm2 q * qnorm2 q, 0, 0, 0, qnorm2 q * qnorm2 q) /\
+  det3 (quat2Mat q) = qnorm2 q * qnorm2 q * qnorm2 q.
+Proof. rewrite quat2Mat_is_reg. destruct (quat2Mat_orth_gen q) as (A & _ & C). auto. Qed.
+
+(* ---- satisfiability of the hypotheses (used by the Examples of Props/C24.v) *)
+Lemma unitq_example : unitq (/ 2, / 2, - / 2, / 2) /\ ~ isNullQuat (T:=R) (/ 2, / 2, - / 2, / 2) = true.
+Proof.
+  split. { unfold unitq, qnorm2. field. }
+  rewrite isNullQuat_true. intros E. inversion E. lra.
+Qed.
+Lemma sub_integrate_example :
+  let q : quat R := (0, 1, 0, 0) in let v : vec3 R := (0, 0, PI) in let h := 1 in
+  unitq q /\ Rabs (h * norm3 v) <= PI /\ h * norm3 v <> 0 /\
+  mjMINVAL <= norm3 v /\ mjMINVAL <= Rabs (sin (h * norm3 v * / 2)) /\
+  subQuat (quatIntegrate q v h) q = (0, 0, PI).
+Proof.
+  cbv zeta. pose proof PI2_1 as P1. pose proof PI_4 as P4. pose proof mjMINVAL_lt1 as M.
+  assert (N : norm3 (T:=R) (0, 0, PI) = PI).
+  { unfold norm3, dot3. nR. replace (0 * 0 + 0 * 0 + PI * PI) with (PI * PI) by ring. apply sqrt_square. lra. }
+  assert (S : sin (1 * PI * / 2) = 1) by (replace (1 * PI * / 2) with (PI / 2) by field; apply sin_PI2).
+  assert (U : unitq (0, 1, 0, 0)) by (unfold unitq, qnorm2; ring).
+  rewrite N, S, Rabs_R1. rewrite (Rabs_right (1 * PI)) by lra.
+  repeat split; try lra; auto.
+  rewrite sub_integrate; auto.
+  - unfold scl3. nR. apply vec_ext; ring.
+  - rewrite N, (Rabs_right (1 * PI)) by lra. lra.
+  - right. rewrite N, S, Rabs_R1. lra.
+Qed.
+
+
+(* ---- small algebraic identities *)
+Lemma mulQuatAxis_eq (q : quat R) (a : vec3 R) :
+  mulQuatAxis q a = mulQuat q (let '(a0, a1, a2) := a in (0, a0, a1, a2)).
+Proof. dq q; dv a. unfold mulQuatAxis, mulQuat. nR. apply quat_ext; ring. Qed.
+Lemma derivQuat_eq (q : quat R) (w : vec3 R) :
+  derivQuat q w = (let '(p0, p1, p2, p3) := mulQuat (let '(w0, w1, w2) := w in (0, w0, w1, w2)) q in
+                   (/ 2 * p0, / 2 * p1, / 2 * p2, / 2 * p3)).
+Proof. dq q; dv w. unfold derivQuat, mulQuat. rewrite nhalf_R. nR. apply quat_ext; ring. Qed.
+
+(* ---- MJX quat_integrate / quat_sub agree with the C functions on the regular domain *)
+Definition tol8 : R := Rdec 1 (-8).
+Lemma tol8_pos : 0 < tol8. Proof. unfold tol8, Rdec. replace (10 ^ 8)%Z with 100000000%Z by reflexivity. lra. Qed.
+Lemma tol8_lt1 : tol8 < / 2. Proof. unfold tol8, Rdec. replace (10 ^ 8)%Z with 100000000%Z by reflexivity. lra. Qed.
+Definition notTiny3 (v : vec3 R) : Prop := let '(v0, v1, v2) := v in tol8 < Rabs v0 \/ tol8 < Rabs v1 \/ tol8 < Rabs v2.
+
+Lemma mjx_den_pos n : n <> 0 -> mjx_den n = n.
+Proof. intros N. unfold mjx_den. nR. replace (Reqb n 0) with false by (symmetry; apply Reqb_false; assumption). ring. Qed.
+
+Lemma sq_abs_le a t : 0 <= t -> Rabs a <= t -> a * a <= t * t.
+Proof. intros T A. rewrite <- (Rabs_right t) in A by lra. apply Rsqr_le_abs_1 in A. unfold Rsqr in A. exact A. Qed.
+Lemma sq_abs_gt a t : 0 <= t -> t < Rabs a -> t * t < a * a.
+Proof. intros T A. rewrite <- (Rabs_right t) in A by lra. apply Rsqr_lt_abs_1 in A. unfold Rsqr in A. exact A. Qed.
+
+Lemma mjx_norm3_notTiny (v : vec3 R) : notTiny3 v -> mjx_norm3 v = norm3 v /\ tol8 < norm3 v.
+Proof.
+  dv v. unfold notTiny3, mjx_norm3, norm3, dot3. nR. fold tol8. intros N.
+  pose proof tol8_pos as TP.
+  assert (F : Rleb (Rabs v0) tol8 && Rleb (Rabs v1) tol8 && Rleb (Rabs v2) tol8 = false).
+  { destruct N as [N|[N|N]]; apply Rleb_false in N; rewrite N; rewrite ?andb_false_r; reflexivity. }
+  rewrite F. split; [reflexivity|].
+  assert (S : tol8 * tol8 < v0 * v0 + v1 * v1 + v2 * v2).
+  { destruct N as [N|[N|N]]; apply sq_abs_gt in N; nra. }
+  rewrite <- (sqrt_square tol8) by lra. apply sqrt_lt_1; nra.
+Qed.
+
+Lemma mjx_norm4_unit (q : quat R) : unitq q -> mjx_norm4 q = 1.
+Proof.
+  dq q. unfold unitq, qnorm2, mjx_norm4. nR. fold tol8. intros U. pose proof tol8_pos. pose proof tol8_lt1.
+  destruct (Rleb (Rabs q0) tol8 && Rleb (Rabs q1) tol8 && Rleb (Rabs q2) tol8 && Rleb (Rabs q3) tol8) eqn:E.
+  - rewrite !andb_true_iff, !Rleb_true in E. destruct E as [[[A B] C] D].
+    apply sq_abs_le in A, B, C, D; try lra. nra.
+  - rewrite U. apply sqrt_1.
+Qed.
+Lemma mjx_normalize4_unit (q : quat R) : unitq q -> mjx_normalize4 q = q.
+Proof.
+  intros U. unfold mjx_normalize4. rewrite (mjx_norm4_unit q U), mjx_den_pos by lra.
+  dq q. nR. apply quat_ext; field.
+Qed.
+
+Lemma mjx_axis_angle_eq (a : vec3 R) (t : R) : mjx_axis_angle_to_quat a t = axisAngle_reg a t.
+Proof. dv a. unfold mjx_axis_angle_to_quat, axisAngle_reg. rewrite nhalf_R. nR. reflexivity. Qed.
+
+Lemma axisAngle_reg_zero (a : vec3 R) : axisAngle_reg a 0 = quatId.
+Proof. dv a. unfold axisAngle_reg, quatId. replace (0 * / 2) with 0 by field. rewrite sin_0, cos_0. nR. apply quat_ext; ring. Qed.
+Lemma axisAngle2Quat_is_reg (a : vec3 R) (t : R) : axisAngle2Quat a t = axisAngle_reg a t.
+Proof. destruct (axisAngle2Quat_reg_eq a t) as [E|[Z E]]; [exact E|]. rewrite E, Z, axisAngle_reg_zero. reflexivity. Qed.
+
+Lemma mjx_quat_integrate_eq (q : quat R) (v : vec3 R) (dt : R) :
+  unitq q -> (v = (0, 0, 0) \/ notTiny3 v) -> mjx_quat_integrate q v dt = quatIntegrate q v dt.
+Proof.
+  intros U C. rewrite quatIntegrate_eq, normalize4_unit by assumption. cbn [fst].
+  unfold mjx_quat_integrate. pose proof tol8_pos as TP. pose proof mjMINVAL_R as MV.
+  destruct C as [Z|N].
+  - subst v. assert (N0 : norm3 (T:=R) (0, 0, 0) = 0).
+    { unfold norm3, dot3. nR. replace (0 * 0 + 0 * 0 + 0 * 0) with 0 by ring. apply sqrt_0. }
+    assert (M0 : mjx_normalize3 (T:=R) (0, 0, 0) = ((0 / mjx_den 0, 0 / mjx_den 0, 0 / mjx_den 0), 0)).
+    { unfold mjx_normalize3, mjx_norm3. nR. fold tol8. rewrite Rabs_R0.
+      replace (Rleb 0 tol8) with true by (symmetry; apply Rleb_true; lra). reflexivity. }
+    rewrite M0, N0. cbv beta iota. nR. replace (dt * 0) with 0 by ring.
+    rewrite mjx_axis_angle_eq, axisAngle2Quat_is_reg, !axisAngle_reg_zero, mulQuat_id_r.
+    apply mjx_normalize4_unit; assumption.
+  - destruct (mjx_norm3_notTiny v N) as [E L].
+    assert (NP : norm3 v <> 0) by lra.
+    assert (BIG : mjMINVAL <= norm3 v).
+    { rewrite MV. unfold tol8, Rdec in L. replace (10 ^ 8)%Z with 100000000%Z in L by reflexivity. lra. }
+    assert (M : mjx_normalize3 v = (scl3 v (1 / norm3 v), norm3 v)).
+    { unfold mjx_normalize3. rewrite E, mjx_den_pos by assumption. dv v. unfold scl3. nR. apply quat_ext; try reflexivity; field; assumption. }
+    rewrite M. cbv beta iota. nR. rewrite normalize3_big, mjx_axis_angle_eq, axisAngle2Quat_is_reg by assumption.
+    apply mjx_normalize4_unit. apply unitq_mul; [assumption|].
+    rewrite <- axisAngle2Quat_is_reg. apply axisAngle2Quat_unit. apply scl3_unit. lra.
+Qed.
+
+Lemma mjx_quat_inv_eq (v : quat R) : mjx_quat_inv v = negQuat v.
+Proof. dq v. unfold mjx_quat_inv, negQuat. nR. apply quat_ext; ring. Qed.
+
+Lemma Ratan2_0 (x : R) : 2 * Ratan2 0 x = 0 \/ 2 * Ratan2 0 x = 2 * PI.
+Proof.
+  unfold Ratan2. destruct (Rlt_dec 0 x).
+  - left. unfold Rdiv. rewrite Rmult_0_l, atan_0. ring.
+  - destruct (Rlt_dec x 0).
+    + right. destruct (Rle_dec 0 0); [|lra]. unfold Rdiv. rewrite Rmult_0_l, atan_0. ring.
+    + left. destruct (Rlt_dec 0 0); [lra|]. ring.
+Qed.
+
+Lemma mjx_axis_angle_vel (p : quat R) :
+  (let '(p0, p1, p2, p3) := p in (p1, p2, p3) = (0, 0, 0) \/ notTiny3 (p1, p2, p3)) ->
+  (let '(axis, angle) := mjx_quat_to_axis_angle p in scl3 axis angle) = quat2Vel p 1.
+Proof.
+  dq p. intros C. unfold mjx_quat_to_axis_angle, quat2Vel. pose proof tol8_pos as TP. pose proof mjMINVAL_R as MV.
+  pose proof PI_RGT_0 as PP.
+  destruct C as [Z|N].
+  - inversion Z; subst.
+    assert (M0 : mjx_normalize3 (T:=R) (0, 0, 0) = ((0 / mjx_den 0, 0 / mjx_den 0, 0 / mjx_den 0), 0)).
+    { unfold mjx_normalize3, mjx_norm3. nR. fold tol8. rewrite Rabs_R0.
+      replace (Rleb 0 tol8) with true by (symmetry; apply Rleb_true; lra). reflexivity. }
+    assert (C0 : normalize3 (T:=R) (0, 0, 0) = ((1, 0, 0), 0)).
+    { unfold normalize3. nR. replace (0 * 0 + 0 * 0 + 0 * 0) with 0 by ring. rewrite sqrt_0.
+      replace (Rltb 0 mjMINVAL) with true by (symmetry; apply Rltb_true; apply mjMINVAL_pos). reflexivity. }
+    rewrite M0, C0. cbv beta iota. nR. unfold scl3. nR.
+    destruct (Ratan2_0 p0) as [A|A]; rewrite A.
+    + replace (Rltb PI 0) with false by (symmetry; apply Rltb_false; lra). apply vec_ext; unfold Rdiv; ring.
+    + replace (Rltb PI (2 * PI)) with true by (symmetry; apply Rltb_true; lra). apply vec_ext; unfold Rdiv; ring.
+  - destruct (mjx_norm3_notTiny _ N) as [E L].
+    assert (NP : norm3 (p1, p2, p3) <> 0) by lra.
+    assert (BIG : mjMINVAL <= norm3 (p1, p2, p3)).
+    { rewrite MV. unfold tol8, Rdec in L. replace (10 ^ 8)%Z with 100000000%Z in L by reflexivity. lra. }
+    assert (M : mjx_normalize3 (p1, p2, p3) = (scl3 (p1, p2, p3) (1 / norm3 (p1, p2, p3)), norm3 (p1, p2, p3))).
+    { unfold mjx_normalize3. rewrite E, mjx_den_pos by assumption. unfold scl3. nR. apply quat_ext; try reflexivity; field; assumption. }
+    assert (Cn : normalize3 (p1, p2, p3) = (scl3 (p1, p2, p3) (1 / norm3 (p1, p2, p3)), norm3 (p1, p2, p3))).
+    { rewrite (surjective_pairing (normalize3 (p1, p2, p3))), normalize3_big, normalize3_snd by assumption. reflexivity. }
+    rewrite M, Cn. cbv beta iota. nR.
+    set (sp := if Rltb PI _ then _ else _). unfold scl3. nR. apply vec_ext; field; assumption.
+Qed.
+
+Lemma mjx_quat_sub_eq (u v : quat R) :
+  (let '(p0, p1, p2, p3) := mulQuat (negQuat v) u in (p1, p2, p3) = (0, 0, 0) \/ notTiny3 (p1, p2, p3)) ->
+  mjx_quat_sub u v = subQuat u v.
+Proof.
+  intros C. unfold mjx_quat_sub, subQuat. rewrite mjx_quat_inv_eq. change (none (T:=R)) with 1.
+  apply mjx_axis_angle_vel. exact C.
+Qed.
+
+(* ---- the combined statements of Props/C24.v *)
+Lemma mulQuat_identity (a : quat R) : mulQuat quatId a = a /\ mulQuat a quatId = a.
+Proof. split; [apply mulQuat_id_l | apply mulQuat_id_r]. Qed.
+Lemma negQuat_inverse_full (q : quat R) :
+    mulQuat q (negQuat q) = (qnorm2 q, 0, 0, 0) /\ mulQuat (negQuat q) q = (qnorm2 q, 0, 0, 0) /\
+    (unitq q -> mulQuat q (negQuat q) = quatId /\ mulQuat (negQuat q) q = quatId /\ unitq (negQuat q)) /\
+    (forall p, qnorm2 (mulQuat q p) = qnorm2 q * qnorm2 p).
+Proof.
+  split; [apply mulQuat_neg_r|]. split; [apply mulQuat_neg_l|]. split.
+  - intros U. destruct (negQuat_inverse q U). auto using unitq_neg.
+  - intros p. apply qnorm2_mul.
+Qed.
+Lemma rotVecQuat_matrix_both (v : vec3 R) (q : quat R) : unitq q ->
+    rotVecQuat v q = mulMatVec3 (quat2Mat q) v /\ rotVecQuat_i v q = mulMatVec3 (quat2Mat q) v.
+Proof. intros. split; [apply rotVecQuat_mat | apply rotVecQuat_i_mat]; assumption. Qed.
+Lemma rotVecQuat_norm_both (v : vec3 R) (q : quat R) : unitq q ->
+    norm3 (rotVecQuat v q) = norm3 v /\ norm3 (rotVecQuat_i v q) = norm3 v.
+Proof. intros. split; [apply rotVecQuat_norm | apply rotVecQuat_i_norm]; assumption. Qed.
+Lemma rotVecQuat_nonunit_both (v : vec3 R) (q : quat R) :
+    rotVecQuat v q = add3 (mulMatVec3 (quat2Mat q) v) (scl3 v (1 - qnorm2 q)) /\
+    rotVecQuat_i v q = rotVecQuat v q.
+Proof. split; [apply rotVecQuat_nonunit | apply rotVecQuat_i_eq]. Qed.
+Lemma mulPose_group (p1 p2 p3 : pose R) : unitp p1 -> unitp p2 -> unitp p3 ->
+    mulPose (mulPose p1 p2) p3 = mulPose p1 (mulPose p2 p3) /\
+    unitp (mulPose p1 p2) /\ unitp (negPose p1) /\
+    mulPose poseId p1 = p1 /\ mulPose p1 poseId = p1 /\
+    mulPose p1 (negPose p1) = poseId /\ mulPose (negPose p1) p1 = poseId.
+Proof.
+  intros U1 U2 U3.
+  destruct (mulPose_id p1 U1). destruct (negPose_inverse p1 U1).
+  repeat split; auto using mulPose_assoc, mulPose_unitp, negPose_unitp.
+Qed.
+Lemma trnVecPose_action_full (p1 p2 : pose R) (v : vec3 R) : unitp p1 -> unitp p2 ->
+    trnVecPose (mulPose p1 p2) v = trnVecPose p1 (trnVecPose p2 v) /\
+    trnVecPose poseId v = v /\
+    trnVecPose (negPose p1) (trnVecPose p1 v) = v.
+Proof. intros. repeat split; auto using trnVecPose_action, trnVecPose_id, trnVecPose_neg. Qed.
+Lemma euler_examples (e0 e1 e2 : R) :
+    euler2Quat (e0, e1, e2) "xyz" = Some (mulQuat (rotOf "x" e0) (mulQuat (rotOf "y" e1) (rotOf "z" e2))) /\
+    euler2Quat (e0, e1, e2) "XYZ" = Some (mulQuat (rotOf "Z" e2) (mulQuat (rotOf "Y" e1) (rotOf "X" e0))) /\
+    euler2Quat (e0, e1, e2) "xYz" = Some (mulQuat (rotOf "Y" e1) (mulQuat (rotOf "x" e0) (rotOf "z" e2))).
+Proof.
+  assert (V : forall s, In s ["xyz"%string; "XYZ"%string; "xYz"%string] -> Forall validEuler (list_ascii_of_string s)).
+  { intros s [<-|[<-|[<-|[]]]]; cbn; repeat (apply Forall_cons; [unfold validEuler; auto 10|]); apply Forall_nil. }
+  repeat split; (rewrite euler2Quat_product; [|reflexivity|apply V; cbn; auto]);
+    cbn [list_ascii_of_string v2l factors isLower Ascii.eqb Bool.eqb orb andb rev app qprod fold_right];
+    rewrite ?mulQuat_id_r, ?mulQuat_id_l, ?mulQuat_assoc; reflexivity.
+Qed.
